@@ -32,11 +32,11 @@ example : urlSafe [47] = false := by decide
     passes raw), and in the output as written every `&` still begins a complete character
     reference (no reference is cut by a `<br>`). -/
 theorem changeNewlineToBr_only_breaks (s : Bytes) :
-    removeTag brTag (changeNewlineToBr s) = goHtmlEscape (s.filter notNL) ∧
+    removeTag brTag (changeNewlineToBr s) = htmlEscape (s.filter notNL) ∧
     (∀ pre post, changeNewlineToBr s = pre ++ 38 :: post → (matchRef (38 :: post)).isSome = true) := by
   refine ⟨?_, (ampsStartRefs_iff _).1 (nl_amps s false)⟩
   unfold removeTag changeNewlineToBr
-  rw [removeBr_nlToBr _ (fun b hb => ((noRawSpecial_iff _).1 (goHtmlEscape_noRaw s) b hb).1), filter_notNL_goHtmlEscape]
+  rw [removeBr_nlToBr _ (fun b hb => ((noRawSpecial_iff _).1 (htmlEscape_noRaw s) b hb).1), filter_notNL_htmlEscape]
 
 example : changeNewlineToBr [60, 13, 10, 97, 10] = [38, 108, 116, 59, 60, 98, 114, 62, 97, 60, 98, 114, 62] := by decide
 example : removeTag brTag [38, 108, 116, 59, 60, 98, 114, 62, 97, 60, 98, 114, 62] = [38, 108, 116, 59, 97] := by decide
@@ -46,11 +46,11 @@ example : removeTag brTag [38, 108, 116, 59, 60, 98, 114, 62, 97, 60, 98, 114, 6
     and in the output as written every `&` still begins a complete character reference — a
     `<wbr>` is never put inside a reference (`wordBreaks_keeps_entities`). -/
 theorem insertWordBreaks_only_breaks (s : Bytes) (n : Int) :
-    removeTag wbrTag (insertWordBreaks s n) = goHtmlEscape s ∧
+    removeTag wbrTag (insertWordBreaks s n) = htmlEscape s ∧
     (∀ pre post, insertWordBreaks s n = pre ++ 38 :: post → (matchRef (38 :: post)).isSome = true) := by
   refine ⟨?_, (ampsStartRefs_iff _).1 (wb_amps n s 0 0 (by simp))⟩
   unfold removeTag insertWordBreaks
-  exact removeWbr_wordBreaks n _ (fun b hb => ((noRawSpecial_iff _).1 (goHtmlEscape_noRaw s) b hb).1) 0 0 false
+  exact removeWbr_wordBreaks n _ (fun b hb => ((noRawSpecial_iff _).1 (htmlEscape_noRaw s) b hb).1) 0 0 false
 
 /- "<<<<" with n = 2: the break falls between two references, not inside one -/
 example : insertWordBreaks [60, 60, 60, 60] 2 =
